@@ -1,10 +1,10 @@
 #!/bin/bash
 # [OUT=<binary name>] engineb-build.sh <check-dir-name> [extra go build flags]: builds an Engine B check through the overlay
 set -e
-export GOFLAGS=-mod=mod GOPROXY=off GOSUMDB=off GOTOOLCHAIN=local
+. "$(dirname "$(realpath "$0")")/goenv.sh"
 HERE=$(dirname "$(realpath "$0")")
 ROOT=$(realpath "$HERE/..")
 C=$1; shift
 mkdir -p "$ROOT/.bin" "$ROOT/.overlay"
-(cd "$HERE" && go run ./overlaygen /repo "$HERE/_shim" "$ROOT/.overlay/$C" >/dev/null)
+(cd "$HERE" && go run ./overlaygen "$VERIF_REPO" "$HERE/_shim" "$ROOT/.overlay/$C" >/dev/null)
 (cd "$HERE" && go build -overlay "$ROOT/.overlay/$C/overlay.json" "$@" -o "$ROOT/.bin/${OUT:-$C}" "./checks/$C")
